@@ -792,3 +792,334 @@ Qed.
 Example example_file_bitflip_detected :
   fst (read_file_bytes fixed_policy (firstn 100 example_file ++ [99] ++ skipn 101 example_file)) = Err ECorrupt.
 Proof. vm_compute. reflexivity. Qed.
+
+(* ---- truncation ------------------------------------------------------------------------------ *)
+
+Definition block_accepted (pol : policy) (b : cblock) : Prop :=
+  lenN (cb_hdr b) = 16 /\
+  exists h, bhdr_deserialize (cb_hdr b) = Ok h /\ lenN (cb_comp b) = bh_csize h /\
+            fst (parse_block pol h (cb_comp b)) = Ok (cb_entries b).
+
+Definition eofish (s : step) : Prop := s = StEOF \/ s = StErr EShort.
+
+Lemma tail_class_eofish b : eofish (tail_class b).
+Proof. destruct b; [left|right]; reflexivity. Qed.
+
+Lemma firstn_len_app {A} (a b : list A) : firstn (length a) (a ++ b) = a.
+Proof. induction a as [|x a IH]; [apply firstn_O|]. simpl length. simpl app. rewrite firstn_cons, IH. reflexivity. Qed.
+
+Lemma skipn_len_app {A} (a b : list A) : skipn (length a) (a ++ b) = b.
+Proof. induction a as [|x a IH]; [apply skipn_O|]. simpl length. simpl app. rewrite skipn_cons. exact IH. Qed.
+
+Lemma firstn_app_ge {A} (a b : list A) m : (length a <= m)%nat -> firstn m (a ++ b) = a ++ firstn (m - length a) b.
+Proof.
+  revert m. induction a as [|x a IH]; intros m H; simpl length in *; simpl app.
+  - f_equal. lia.
+  - destruct m; [lia|]. rewrite firstn_cons. f_equal. rewrite IH by lia. f_equal.
+Qed.
+
+Lemma firstn_app_lt {A} (a b : list A) m : (m <= length a)%nat -> firstn m (a ++ b) = firstn m a.
+Proof.
+  revert m. induction a as [|x a IH]; intros m H; simpl length in *; simpl app.
+  - replace m with 0%nat by lia. rewrite !firstn_O. reflexivity.
+  - destruct m; [rewrite !firstn_O; reflexivity|]. rewrite !firstn_cons. f_equal. apply IH. lia.
+Qed.
+
+Lemma firstn_firstn_le {A} (l : list A) a b : (a <= b)%nat -> firstn a (firstn b l) = firstn a l.
+Proof.
+  revert a b. induction l as [|x l IH]; intros a b H; [rewrite !firstn_nil; reflexivity|].
+  destruct a; [rewrite !firstn_O; reflexivity|]. destruct b; [lia|].
+  rewrite !firstn_cons. f_equal. apply IH. lia.
+Qed.
+
+(* the reader's view of a complete accepted block followed by anything *)
+Lemma next_block_accepted pol b X :
+  block_accepted pol b -> fst (next_block pol (cb_bytes b ++ X)) = StBlock (cb_entries b) X.
+Proof.
+  intros (Lh & h & E2 & Lc & P). unfold cb_bytes. rewrite <- app_assoc.
+  set (hb := cb_hdr b) in *. set (comp := cb_comp b) in *.
+  assert (length hb = 16%nat) as Lh' by (unfold lenN in Lh; lia).
+  unfold next_block. destruct (hb ++ comp ++ X) as [|r0 r1] eqn:ER.
+  { destruct hb; simpl in *; [lia|discriminate]. }
+  rewrite <- ER. clear ER r0 r1.
+  unfold next_block_ne. cbv zeta.
+  assert (lenN (hb ++ comp ++ X) = 16 + bh_csize h + lenN X) as LR by (rewrite !lenN_app; lia).
+  destruct (lenN (hb ++ comp ++ X) <? block_header_size) eqn:L.
+  { apply N.ltb_lt in L. unfold block_header_size in L. lia. }
+  unfold block_header_size in *.
+  destruct (slice_ok (hb ++ comp ++ X) 0 16) as (s & -> & _ & Es); try lia.
+  change (N.to_nat 0) with 0%nat in Es. rewrite skipn_O in Es.
+  change (N.to_nat (16 - 0)) with 16%nat in Es. rewrite <- Lh', firstn_len_app in Es. subst s.
+  cbn [bind]. rewrite E2.
+  destruct (lenN (hb ++ comp ++ X) - 16 <? bh_csize h) eqn:S.
+  { apply N.ltb_lt in S. lia. }
+  rewrite andb_false_r.
+  destruct (slice_ok (hb ++ comp ++ X) 16 (16 + bh_csize h)) as (s & -> & _ & Es); try lia.
+  change (N.to_nat 16) with 16%nat in Es. rewrite <- Lh', skipn_len_app in Es.
+  replace (N.to_nat (16 + bh_csize h - 16)) with (length comp) in Es by (unfold lenN in Lc; lia).
+  rewrite firstn_len_app in Es. subst s.
+  destruct (parse_block pol h comp) as [r plog]. cbn [fst] in P. subst r. cbn [fst].
+  f_equal.
+  replace (N.to_nat (16 + bh_csize h)) with (length comp + length hb)%nat by (unfold lenN in Lc; lia).
+  rewrite <- skipn_skipn'. rewrite skipn_len_app. apply skipn_len_app.
+Qed.
+
+(* ... and of a proper prefix of it *)
+Lemma next_block_partial pol b m :
+  block_accepted pol b -> (m < length (cb_bytes b))%nat ->
+  eofish (fst (next_block pol (firstn m (cb_bytes b)))).
+Proof.
+  intros (Lh & h & E2 & Lc & P) Hm. unfold cb_bytes in *.
+  set (hb := cb_hdr b) in *. set (comp := cb_comp b) in *.
+  assert (length hb = 16%nat) as Lh' by (unfold lenN in Lh; lia).
+  rewrite app_length in Hm.
+  unfold next_block. destruct (firstn m (hb ++ comp)) as [|r0 r1] eqn:ER; [left; reflexivity|].
+  rewrite <- ER. clear ER r0 r1.
+  assert (lenN (firstn m (hb ++ comp)) = N.of_nat m) as LR.
+  { unfold lenN. rewrite firstn_length, app_length. lia. }
+  unfold next_block_ne. cbv zeta.
+  destruct (lenN (firstn m (hb ++ comp)) <? block_header_size) eqn:L; [apply tail_class_eofish|].
+  apply N.ltb_ge in L. unfold block_header_size in *.
+  destruct (slice_ok (firstn m (hb ++ comp)) 0 16) as (s & -> & _ & Es); try lia.
+  change (N.to_nat 0) with 0%nat in Es. rewrite skipn_O in Es.
+  change (N.to_nat (16 - 0)) with 16%nat in Es.
+  rewrite firstn_firstn_le in Es by lia. rewrite <- Lh', firstn_len_app in Es. subst s.
+  cbn [bind]. rewrite E2.
+  destruct (lenN (firstn m (hb ++ comp)) - 16 <? bh_csize h) eqn:S.
+  - destruct (p_bound_first pol); cbn [andb fst]; apply tail_class_eofish.
+  - apply N.ltb_ge in S. unfold lenN in Lc. lia.
+Qed.
+
+Lemma next_block_incomplete pol t j :
+  incomplete_tail t -> eofish (fst (next_block pol (firstn j t))).
+Proof.
+  intros IT. unfold next_block.
+  destruct (firstn j t) as [|r0 r1] eqn:ER; [left; reflexivity|]. rewrite <- ER. clear ER r0 r1.
+  unfold next_block_ne. cbv zeta.
+  destruct (lenN (firstn j t) <? block_header_size) eqn:L; [apply tail_class_eofish|].
+  apply N.ltb_ge in L. unfold block_header_size in *.
+  assert (lenN (firstn j t) <= lenN t) as LT by (unfold lenN; rewrite firstn_length; lia).
+  assert (16 <= j)%nat as Hj by (unfold lenN in L; rewrite firstn_length in L; lia).
+  destruct IT as [IT|(h & E2 & Sh)]; [lia|].
+  destruct (slice_ok (firstn j t) 0 16) as (s & -> & _ & Es); try lia.
+  change (N.to_nat 0) with 0%nat in Es. rewrite skipn_O in Es.
+  change (N.to_nat (16 - 0)) with 16%nat in Es.
+  rewrite firstn_firstn_le in Es by lia. subst s. cbn [bind]. rewrite E2.
+  destruct (lenN (firstn j t) - 16 <? bh_csize h) eqn:S.
+  - destruct (p_bound_first pol); cbn [andb fst]; apply tail_class_eofish.
+  - apply N.ltb_ge in S. lia.
+Qed.
+
+Lemma cb_bytes_len pol b : block_accepted pol b -> (16 <= length (cb_bytes b))%nat.
+Proof. intros (Lh & _). unfold cb_bytes. rewrite app_length. unfold lenN in Lh. lia. Qed.
+
+Lemma read_blocks_eofish pol f rest :
+  eofish (fst (next_block pol rest)) ->
+  fst (read_blocks pol (S f) rest) = Ok [] \/ fst (read_blocks pol (S f) rest) = Err EShort.
+Proof.
+  intros E. cbn [read_blocks]. destruct (next_block pol rest) as [st log]. cbn [fst] in E.
+  destruct E as [-> | ->]; [left|right]; reflexivity.
+Qed.
+
+(* reading any prefix of (accepted blocks ++ incomplete tail): EShort or the entries of the
+   first k blocks *)
+Lemma read_blocks_prefix pol tail : incomplete_tail tail ->
+  forall blocks, Forall (block_accepted pol) blocks ->
+  forall m fuel,
+    (length (firstn m (concat (map cb_bytes blocks) ++ tail)) < 16 * fuel)%nat ->
+    let r := fst (read_blocks pol fuel (firstn m (concat (map cb_bytes blocks) ++ tail))) in
+    r = Err EShort \/ exists k, r = Ok (concat (map cb_entries (firstn k blocks))).
+Proof.
+  intros IT blocks F. induction F as [|b bs Hb _ IH]; intros m fuel Hf r; subst r.
+  - cbn [map concat app] in *. destruct fuel as [|f]; [lia|].
+    destruct (read_blocks_eofish pol f (firstn m tail) (next_block_incomplete pol tail m IT)) as [-> | ->];
+      [right; exists 0%nat; reflexivity|left; reflexivity].
+  - cbn [map concat] in *. rewrite <- app_assoc in *.
+    pose proof (cb_bytes_len pol b Hb) as L16.
+    destruct fuel as [|f]; [lia|].
+    destruct (Nat.lt_ge_cases m (length (cb_bytes b))) as [Hm|Hm].
+    + rewrite firstn_app_lt by lia.
+      destruct (read_blocks_eofish pol f _ (next_block_partial pol b m Hb Hm)) as [-> | ->];
+        [right; exists 0%nat; reflexivity|left; reflexivity].
+    + rewrite firstn_app_ge in * by lia.
+      cbn [read_blocks].
+      pose proof (next_block_accepted pol b (firstn (m - length (cb_bytes b)) (concat (map cb_bytes bs) ++ tail)) Hb) as NB.
+      destruct (next_block pol _) as [st log]. cbn [fst] in NB. subst st.
+      specialize (IH (m - length (cb_bytes b))%nat f).
+      rewrite app_length in Hf.
+      destruct (read_blocks pol f _) as [r log']. cbn [fst] in *.
+      destruct IH as [-> | (k & ->)]; [lia|left; reflexivity|].
+      right. exists (S k). rewrite firstn_cons. reflexivity.
+Qed.
+
+Lemma next_block_ne_block_acc pol rest es rest' :
+  fst (next_block_ne pol rest) = StBlock es rest' ->
+  exists b, block_accepted pol b /\ cb_entries b = es /\ rest = cb_bytes b ++ rest'.
+Proof.
+  unfold next_block_ne. cbv zeta.
+  destruct (lenN rest <? block_header_size) eqn:L.
+  { intros E. exfalso. eapply tail_class_not_block, E. }
+  apply N.ltb_ge in L. unfold block_header_size in *.
+  destruct (slice_ok rest 0 16) as (hb & -> & Lh & Eh); try lia. cbn [bind].
+  destruct (bhdr_deserialize_ok hb) as (h & E2); [unfold block_header_size; lia|]. rewrite E2.
+  destruct (lenN rest - 16 <? bh_csize h) eqn:S.
+  { destruct (p_bound_first pol); cbn [andb fst]; intros E; exfalso; eapply tail_class_not_block, E. }
+  rewrite andb_false_r. apply N.ltb_ge in S.
+  destruct (slice_ok rest 16 (16 + bh_csize h)) as (comp & -> & Lc & Ec); try lia.
+  destruct (parse_block pol h comp) as [r plog] eqn:P.
+  destruct r; cbn [fst]; try discriminate.
+  intros E; inversion E; subst a rest'. clear E.
+  exists {| cb_hdr := hb; cb_comp := comp; cb_entries := es |}.
+  split; [|split; [reflexivity|]].
+  - split; [exact Lh|]. exists h. cbn [cb_hdr cb_comp cb_entries].
+    repeat split; try assumption; [lia|rewrite P; reflexivity].
+  - unfold cb_bytes. cbn [cb_hdr cb_comp]. rewrite <- app_assoc.
+    rewrite Eh, Ec.
+    change (N.to_nat 0) with 0%nat. rewrite skipn_O.
+    change (N.to_nat (16 - 0)) with 16%nat. change (N.to_nat 16) with 16%nat.
+    replace (N.to_nat (16 + bh_csize h - 16)) with (N.to_nat (bh_csize h)) by lia.
+    replace (N.to_nat (16 + bh_csize h)) with (N.to_nat (bh_csize h) + 16)%nat by lia.
+    apply split3.
+Qed.
+
+Lemma read_blocks_accepted pol fuel : forall rest es,
+  fst (read_blocks pol fuel rest) = Ok es ->
+  exists blocks tail,
+    rest = concat (map cb_bytes blocks) ++ tail /\
+    Forall (block_accepted pol) blocks /\
+    es = concat (map cb_entries blocks) /\
+    incomplete_tail tail.
+Proof.
+  induction fuel as [|f IH]; intros rest es; cbn [read_blocks]; [discriminate|].
+  destruct (next_block pol rest) as [st log] eqn:NB.
+  assert (fst (next_block pol rest) = st) as NB' by (rewrite NB; reflexivity). clear NB.
+  destruct st; cbn [fst]; try discriminate.
+  - intros E; inversion E; subst. exists [], rest.
+    split; [reflexivity|]. split; [constructor|]. split; [reflexivity|].
+    unfold next_block in NB'. destruct rest; [left; unfold lenN; simpl; lia|].
+    apply (next_block_ne_eof pol), NB'.
+  - specialize (IH rest').
+    destruct (read_blocks pol f rest') as [r log']. cbn [fst] in *.
+    destruct r; cbn [bind]; try discriminate.
+    intros E; inversion E; subst. clear E.
+    destruct (IH a eq_refl) as (blocks & tail & R1 & R2 & R3 & R4).
+    unfold next_block in NB'. destruct rest as [|r0 rest0]; [discriminate|].
+    destruct (next_block_ne_block_acc pol _ _ _ NB') as (b & B1 & B2 & B3).
+    exists (b :: blocks), tail. repeat split.
+    + rewrite B3. cbn [map concat]. rewrite <- app_assoc. f_equal. exact R1.
+    + constructor; assumption.
+    + cbn [map concat]. rewrite B2, R3. reflexivity.
+    + exact R4.
+Qed.
+
+Lemma skipn_firstn_comm' {A} m : forall n (l : list A), skipn m (firstn n l) = firstn (n - m) (skipn m l).
+Proof.
+  induction m as [|m IH]; intros n l.
+  - rewrite !skipn_O. f_equal. lia.
+  - destruct n; [cbn [Nat.sub]; rewrite ?firstn_O; destruct (S m); [rewrite ?skipn_O|rewrite ?skipn_nil]; reflexivity|].
+    destruct l as [|x l]; [rewrite ?skipn_nil, ?firstn_nil, ?skipn_nil; reflexivity|].
+    rewrite firstn_cons, !skipn_cons. apply IH.
+Qed.
+
+Lemma slice_prefix_eq (f : list N) n lo hi :
+  lo <= hi -> hi <= N.of_nat n -> (n <= length f)%nat ->
+  slice (firstn n f) lo hi = slice f lo hi.
+Proof.
+  intros H1 H2 H3.
+  destruct (slice_ok (firstn n f) lo hi) as (s & -> & _ & ->); try lia.
+  { unfold lenN. rewrite firstn_length. lia. }
+  destruct (slice_ok f lo hi) as (s & -> & _ & ->); try lia.
+  { unfold lenN. lia. }
+  f_equal. rewrite skipn_firstn_comm'. apply firstn_firstn_le. lia.
+Qed.
+
+Lemma nfr_prefix f op n :
+  fst (new_file_reader f) = Ok op -> (n < length f)%nat ->
+  fst (new_file_reader (firstn n f)) = Err EShort \/
+  (fst (new_file_reader (firstn n f)) = Ok op /\ data_start_offset (o_hdr op) <= N.of_nat n).
+Proof.
+  intros H Hn. unfold new_file_reader in *. cbv zeta in *. unfold file_header_size in *.
+  assert (lenN (firstn n f) = N.of_nat n) as Ln by (unfold lenN; rewrite firstn_length; lia).
+  destruct (lenN f <? 64) eqn:Lf; [discriminate|].
+  destruct (lenN (firstn n f) <? 64) eqn:Lf'; [left; reflexivity|].
+  apply N.ltb_ge in Lf, Lf'.
+  rewrite (slice_prefix_eq f n 0 64) by lia.
+  destruct (slice f 0 64) as [hb| | |]; cbn [bind fst] in *; try discriminate.
+  destruct (fhdr_deserialize hb) as [h| | |]; cbn [fst] in *; try discriminate.
+  unfold data_start_offset, file_header_size.
+  destruct ((fh_version h =? version3) && (0 <? fh_namelen h)) eqn:C.
+  - apply andb_true_iff in C as [C1 C2].
+    destruct (lenN f - 64 <? fh_namelen h) eqn:Sf; [discriminate|].
+    destruct (lenN (firstn n f) - 64 <? fh_namelen h) eqn:Sf'; [left; reflexivity|].
+    apply N.ltb_ge in Sf, Sf'.
+    rewrite (slice_prefix_eq f n 64 (64 + fh_namelen h)) by lia.
+    destruct (slice f 64 (64 + fh_namelen h)); cbn [fst] in *; try discriminate.
+    right. split; [exact H|]. inversion H; subst. cbn [o_hdr]. rewrite C1. lia.
+  - right. split; [exact H|]. cbn [fst] in H. inversion H; subst. cbn [o_hdr].
+    apply andb_false_iff in C as [-> | C]; [lia|].
+    apply N.ltb_ge in C. destruct (fh_version h =? version3); lia.
+Qed.
+
+(* C04_truncation_detected_or_prefix: if the reader accepts f (so f = header [name] blocks tail),
+   then for every n, reading the first n bytes of f is an error, or succeeds with the index of
+   the first k blocks of f for some k - never with anything else. *)
+Theorem read_file_truncation pol f res :
+  fst (read_file_bytes pol f) = Ok res ->
+  exists op blocks tail,
+    fst (new_file_reader f) = Ok op /\
+    skipN (data_start_offset (o_hdr op)) f = concat (map cb_bytes blocks) ++ tail /\
+    Forall (block_accepted pol) blocks /\ incomplete_tail tail /\
+    res = apply_entries (o_name op) (concat (map cb_entries blocks)) /\
+    forall n,
+      fst (read_file_bytes pol (firstn n f)) = Err EShort \/
+      exists k, fst (read_file_bytes pol (firstn n f)) =
+                Ok (apply_entries (o_name op) (concat (map cb_entries (firstn k blocks)))).
+Proof.
+  intros H.
+  assert (H0 := H). unfold read_file_bytes, read_file_fuel in H0.
+  destruct (new_file_reader f) as [o log0] eqn:NF.
+  destruct o as [op| | |]; cbn [fst] in H0; try discriminate.
+  pose proof (read_blocks_accepted pol (blocks_fuel f) (skipN (data_start_offset (o_hdr op)) f)) as R.
+  destruct (read_blocks pol (blocks_fuel f) (skipN (data_start_offset (o_hdr op)) f)) as [r log1].
+  cbn [fst] in R. destruct r; cbn [fst] in H0; try discriminate.
+  inversion H0 as [H1]. clear H0.
+  destruct (R a eq_refl) as (blocks & tail & R1 & R2 & R3 & R4). subst a.
+  exists op, blocks, tail.
+  split; [reflexivity|]. split; [exact R1|]. split; [exact R2|]. split; [exact R4|]. split; [first [reflexivity | symmetry; exact H1]|].
+  intros n.
+  destruct (Nat.le_gt_cases (length f) n) as [Hn|Hn].
+  { right. exists (length blocks). rewrite firstn_all2 by exact Hn. rewrite firstn_all. rewrite H, H1. reflexivity. }
+  assert (fst (new_file_reader f) = Ok op) as NF' by (rewrite NF; reflexivity).
+  destruct (nfr_prefix f op n NF' Hn) as [E|(E & D)].
+  { left. unfold read_file_bytes, read_file_fuel.
+    destruct (new_file_reader (firstn n f)) as [o' l']. cbn [fst] in E. subst o'. reflexivity. }
+  unfold read_file_bytes, read_file_fuel.
+  destruct (new_file_reader (firstn n f)) as [o' l']. cbn [fst] in E. subst o'.
+  set (dso := data_start_offset (o_hdr op)) in *.
+  assert (skipN dso (firstn n f) = firstn (n - N.to_nat dso) (concat (map cb_bytes blocks) ++ tail)) as RS.
+  { rewrite <- R1. unfold skipN.
+    assert (lenN (firstn n f) = N.of_nat n) as Ln by (unfold lenN; rewrite firstn_length; lia).
+    rewrite Ln. unfold lenN.
+    destruct (N.of_nat (length f) <=? dso) eqn:C1; [apply N.leb_le in C1; lia|].
+    destruct (N.of_nat n <=? dso) eqn:C2.
+    - apply N.leb_le in C2. replace (n - N.to_nat dso)%nat with 0%nat by lia. rewrite firstn_O. reflexivity.
+    - apply skipn_firstn_comm'. }
+  rewrite RS.
+  pose proof (read_blocks_prefix pol tail R4 blocks R2 (n - N.to_nat dso) (blocks_fuel (firstn n f))) as P.
+  cbv zeta in P.
+  destruct (read_blocks pol (blocks_fuel (firstn n f)) _) as [r lg]. cbn [fst] in *.
+  destruct P as [-> | (k & ->)].
+  - rewrite <- RS. pose proof (skipN_length dso (firstn n f)).
+    pose proof (blocks_fuel_enough (firstn n f)). lia.
+  - left. reflexivity.
+  - right. exists k. reflexivity.
+Qed.
+
+(* non-vacuity: the example file is accepted; cut inside its only block it reads as the empty
+   prefix (k = 0) under the repaired code's tail policy and as an error under the old one *)
+Example example_file_truncated :
+  fst (read_file_bytes fixed_policy (firstn 100 example_file)) = Ok ([], []) /\
+  fst (read_file_bytes old_policy (firstn 100 example_file)) = Err EShort /\
+  fst (read_file_bytes fixed_policy (firstn 70 example_file)) = Ok ([], []) /\
+  fst (read_file_bytes fixed_policy (firstn 63 example_file)) = Err EShort.
+Proof. repeat split; vm_compute; reflexivity. Qed.
